@@ -57,6 +57,7 @@ def cases(tier):
     yield dict(kind="lig-mismatch", tier=tier)
     yield dict(kind="split", tier=tier)
     yield dict(kind="split-run", tier=tier)
+    yield dict(kind="split-run", tier=tier, with_coords=True)
 
 
 # ------------------------------------------------------------------ tags
@@ -586,7 +587,24 @@ def check_split_run(case):
         evals += 1
         case1 = dict(kind="splitrun1", split=sstr)
         s2["bld_extra"] = ["[ volumes ]"] + [f"{nn} 0.5" for nn, _ in new]
+        if case.get("with_coords"):
+            # the complete structure is supplied (-c): splitting must not change which coordinates an atom gets
+            from .c04 import residue_list, supplied_coords
+            rl = residue_list(s2)
+            centres, atoms_xyz = supplied_coords(rl)
+            in_atoms, in_coords = [], []
+            for (mi, name, r, resname, names) in rl:
+                for an in names:
+                    in_atoms.append((r + 1, resname, an))
+                    in_coords.append(tuple(float(x) for x in atoms_xyz[(mi, r, an)]))
+            s2["input"] = dict(kind="c", atoms=in_atoms, coords=in_coords, box=s2["box"])
+            case1["with_coords"] = True
         res = G.run_gen_coords(s2, Chooser([]))
+        if res["exc"] is None and case.get("with_coords") and res["gro"]:
+            for x, c in zip(res["gro"][0], in_coords):
+                if tuple(round(v, 3) for v in x[3]) != tuple(round(v, 3) for v in c) and len(viols) < 20:
+                    viols.append(dict(assertion="split-keeps-supplied-coordinates", tags=["split-with-input-structure"],
+                                      message=f"-split {sstr} with a complete -c structure: atom {x[2]} written at {x[3]}, supplied {c}", case=case1, detail={}))
         if res["exc"] is not None:
             viols.append(crash_violation(res["exc"], case1, assertion="gen_coords-with-split-builds",
                                          tags=["split-drops-attributes-of-other-residues"] if "'build'" in str(res["exc"]) or "'backmap'" in str(res["exc"]) else []))
@@ -595,7 +613,7 @@ def check_split_run(case):
         want = [w[4] for w in G.expand_atoms(s2)]
         if [a[2] for a in atoms] != want:
             viols.append(dict(assertion="split-keeps-atoms", tags=[], message=f"{sstr}: output atom names {[a[2] for a in atoms]}", case=case1, detail={}))
-        keys.append("splitrun:" + "+".join(sstr))
+        keys.append("splitrun:" + "+".join(sstr) + (":c" if case.get("with_coords") else ""))
     return viols, evals, keys
 
 
